@@ -57,6 +57,10 @@ CLAIMED = {
    "Every valid geometry of a lattice universe (the full 3x3 operand alphabet incl. all 975 simple polygons, polygons with 1..3 holes on 6x6 under every shell/hole start and direction, every <=4-vertex line with repeated points, Multi* with empty members, mixed-dimension and nested collections under every member rotation, the holes family) and its exact and general-position affine images: Area, SignedArea, Length and Centroid are compared with exact rational shoelace areas and first moments and 200-bit square-root sums (tolerance 1e-9 relative to the magnitude, squared for area), and 20 relations are checked on each (Reverse negates signed area, ForceCW/CCW, Z/M, member order, additivity over members, translation invariance/equivariance, WithTransform = TransformXY for 5 maps).",
    "Trust: checks/c14.go:exactMeasures on exact/ rationals and math/big floats.",
    "bounded-exhaustive input enumeration on the real code against exact rational measures", "4/C14"),
+ "C15": ("model_checking",
+   "Every valid geometry of a lattice universe (full 3x3 operand alphabet, holes family, star family of MultiLineStrings sharing end points 2/3/4 ways in every member order, every simple <=7-gon of 3x3 under 8 anisotropic scalings, combs with 2..4 teeth and polygons with 2..3 holes in a row for every combination of tooth/notch/hole/gap widths in {1,2,3} and 4 orientations, closed / self-touching / self-crossing lines, collections with empty members) and affine images: Boundary() is compared cell by cell (every vertex, edge and face of the exact arrangement) with the DE-9IM boundary, and checked for dimension, emptiness of its own boundary, polygon type rule and the collection rule; PointOnSurface is located exactly (strictly interior of an areal member, on the highest-dimension part otherwise, empty iff empty, XY); Dimension/IsEmpty against the structure.",
+   "Trust: exact/ Locate and arrangement. Boundary keeping Z/M is not claimed by the property and not checked (the library documents Force2D there).",
+   "bounded-exhaustive input enumeration on the real code against the exact interior/boundary model", "4/C15"),
 }
 
 PENDING = {}
